@@ -4,7 +4,7 @@ from . import build
 from .shim import Shim, ShimCrash, ShimError, Result
 
 VERIF = build.VERIF
-EVID = os.path.join(VERIF, "evidence")
+EVID = os.environ.get("VERIF_EVIDENCE_DIR", os.path.join(VERIF, "evidence"))
 NSHARDS = int(os.environ.get("VERIF_SHARDS", "16"))
 
 def seed_value():
